@@ -2,7 +2,7 @@
 import os, subprocess
 import vlib
 
-DOMS = [b"a.dom", b"b.a.dom", b"c.b.a.dom", b"x.org", b"hack.dom", b"hack2.dom", b"local.dom", b"me.too", b"w.dom", b"sub.w.dom", b"z"]
+DOMS = [b"a.dom", b"b.a.dom", b"c.b.a.dom", b"x.org", b"hack.dom", b"hack2.dom", b"local.dom", b"me.too", b"w.dom", b"sub.w.dom", b"z", b"me.host"]
 USERS = [b"joe", b"ann", b"list", b"u.v", b"o"]
 TAGS = [b"tag", b"alice", b"v-list", b"t2", b"X"]
 
@@ -102,5 +102,18 @@ class SendHarness:
         except Exception:
             self.p.kill()
 
+def ctl_eff(c):
+    """what the documented defaults make of absent control files: locals and envnoathost default to me, the others to empty"""
+    return dict(c, env=b"me.host" if c.get("env") is None else c["env"], locals=b"me.host\n" if c.get("locals") is None else c["locals"],
+                pct=c.get("pct") or b"", vdoms=c.get("vdoms") or b"")
+
+def gen_absent(rng, c):
+    """some control files absent (the documented minimal installation has only control/me)"""
+    c = dict(c)
+    for k, pr in (("locals", 0.25), ("vdoms", 0.15), ("env", 0.15), ("pct", 0.15)):
+        if rng.random() < pr: c[k] = None
+    return c
+
 def ctl_args(c):
+    c = ctl_eff(c)
     return "%s %s %s %s" % (vlib.hx(c["env"]), vlib.hx(c["locals"]), vlib.hx(c["pct"]), vlib.hx(c["vdoms"]))
